@@ -6,9 +6,7 @@ https://github.com/scottcorgan/tiny-emitter
 from collections import defaultdict, namedtuple
 
 
-# once_for: the callback a once-listener was made for (off(name, callback) removes it as well)
-Listener = namedtuple('Listener', ['fn', 'ctx', 'once_for'])
-NOT_ONCE = object()
+Listener = namedtuple('Listener', ['fn', 'ctx', 'once'])
 
 
 class Emitter(object):
@@ -19,29 +17,36 @@ class Emitter(object):
     def on(self, name, callback, ctx=None):
         if ctx is None:
             ctx = {}
-        self._e[name].append(Listener(fn=callback, ctx=ctx, once_for=NOT_ONCE))
+        self._e[name].append(Listener(fn=callback, ctx=ctx, once=False))
         return self
 
     def once(self, name, callback, ctx=None):
         if ctx is None:
             ctx = {}
-        def onetime_listener(*args, **ctx):
-            if onetime_listener.called:
-                # still present in the listener snapshot of an enclosing emit
-                return
-            onetime_listener.called = True
-            self.off(name, onetime_listener)
-            callback(*args, **ctx)
-        onetime_listener.called = False
-        # which callback the wrapper stands for is kept in the listener record - not in an attribute of
-        # the wrapper that off() would have to take on trust from any callable carrying one
-        self._e[name].append(Listener(fn=onetime_listener, ctx=ctx, once_for=callback))
+        self._e[name].append(Listener(fn=callback, ctx=ctx, once=True))
         return self
+
+    def _claim(self, name, listener):
+        # take this very record (not an equal one) off the list; False if it is there no more
+        events = self._e[name]
+        for i, event in enumerate(events):
+            if event is listener:
+                del events[i]
+                if not events:
+                    del self._e[name]  # as off() leaves it
+                return True
+        return False
 
     def emit(self, name, *args):
         listeners = self._e[name][:]
-        for listener in listeners:
-            listener.fn(*args, **listener.ctx)
+        # A once-listener belongs to the first emit that finds it, and is called with the arguments
+        # of that emit: it is taken off the list before anything is delivered.  (Consumed only when
+        # it is called, an emit of the same name from inside an earlier listener - or from another
+        # thread - called it with ITS arguments, and the first emit not at all.)
+        mine = [not listener.once or self._claim(name, listener) for listener in listeners]
+        for listener, deliver in zip(listeners, mine):
+            if deliver:
+                listener.fn(*args, **listener.ctx)
         return self
 
     def off(self, name, callback=None):
@@ -49,7 +54,7 @@ class Emitter(object):
         live_events = []
         if events and callback is not None:
             for event in events:
-                if event.fn != callback and (event.once_for is NOT_ONCE or event.once_for != callback):
+                if event.fn != callback:
                     live_events.append(event)
 
         if live_events:
